@@ -10,7 +10,7 @@ PROPS_MODULES = ["C13.Props"]
 RUN_MODULE = "C13.Run"
 RUN_FN = "run_case"
 HARNESS_BIN = "c13"
-HARNESS_BINS = ["c13"]
+HARNESS_BINS = ["c13", "c03bb"]
 SHRINK_KEEP = ("ctx", "req", "rsp")
 RULE = ("cases: one listener/session context (peer v4/v6/absent, public address, http/https, sticky name, closing, "
         "elide/send X-Real-IP, correlation header name incl. names colliding with the reserved ones), a header list "
@@ -263,6 +263,57 @@ def gen_cases(rng, tier):
         else:
             out.append(malformed_case(rng, "m%d" % i))
     return out
+
+
+def bb_cases(rng, tier):
+    """raw HTTP/1.1 requests for the black-box tier (real worker + recording backend, driver c03bb):
+    adversarial header lists on the default listener (correlation header Sozu-Id)"""
+    n = {"quick": 100, "thorough": 1200}.get(tier, 100)
+    out = []
+    for i in range(n):
+        k = rng.randint(1, 3)
+        raw = b""
+        for _ in range(k):
+            hs = [(nm, v) for (nm, v) in header_list(rng, 1, "Sozu-Id", 0, 7)
+                  if nm.lower() not in ("te", "upgrade", "connection", "content-length", "transfer-encoding", "cookie") and nm != ""]
+            hs.insert(rng.randint(0, len(hs)), ("Host", rng.choice(["x", "example.com", "a.b:8080"])))
+            body = b""
+            if rng.random() < 0.4:
+                hs.append(("Transfer-Encoding", "chunked"))
+                body = b"3\r\nabc\r\n0\r\n"
+                for (nm, v) in header_list(rng, 1, "Sozu-Id", 0, 3):
+                    if nm.lower() != "cookie" and nm != "":
+                        body += b(nm) + b": " + b(v) + b"\r\n"
+                body += b"\r\n"
+            else:
+                hs.append(("Content-Length", "0"))
+            raw += b(rng.choice(["GET", "POST"])) + b" " + b(rng.choice(TARGETS)) + b" HTTP/1.1\r\n"
+            for (nm, v) in hs:
+                raw += b(nm) + b": " + b(v) + b"\r\n"
+            raw += b"\r\n" + body
+        ops = []
+        if rng.random() < 0.6:
+            ops.append(["cuts"] + sorted(rng.randint(1, max(1, len(raw) - 1)) for _ in range(rng.randint(1, 4))))
+        ops.append(["raw", raw])
+        out.append(Case("y%d" % i, ops, dict(kind="bb")))
+    return out
+
+
+def extra_stage(tier, rng, work):
+    cases = bb_cases(rng, tier)
+    outs, problems = vlib.run_harness("c03bb", cases, os.path.join(work, "bb"), "release", timeout=240, shards=6)
+    viols, seen = [], 0
+    for c in cases:
+        o = outs.get(c.id)
+        if o is None:
+            problems.append("black-box: no result for case %s" % c.id)
+            continue
+        for (vc, vt) in o["viol"]:
+            viols.append((c, vc, vt))
+        for ob in o["obs"]:
+            if ob and ob[0] == "seen":
+                seen += ob[1]
+    return dict(failures=problems, viols=viols, coverage=dict(blackbox_cases=len(cases), blackbox_requests_seen_by_backend=seen))
 
 
 def corpus_cases():
